@@ -48,11 +48,11 @@ UNIT = Unit(
         fn("Iterator for ProgressBarIter", "next", ret="r", sig_rewrites=[Rw("R10", r"Option<Self::Item>", "Option<u64>")],
            ensures=[("C17-transparent", "final(self).it.log@ == old(self).it.log@.push(Ev::Next(r))"),
                     ("C17-counts-items", "r is Some ==> advanced(old(self).progress, final(self).progress, 1)"),
-                    ("C17-exhaustion-finishes", "r is None ==> exhausted(old(self).progress, final(self).progress)")]),
+                    ("C17-exhaustion-finishes", "r is None ==> exhausted(old(self).progress, final(self).progress)", ["C17", "C04"])]),
         fn("DoubleEndedIterator for ProgressBarIter", "next_back", ret="r", sig_rewrites=[Rw("R10", r"Option<Self::Item>", "Option<u64>")],
            ensures=[("C17-transparent", "final(self).it.log@ == old(self).it.log@.push(Ev::NextBack(r))"),
                     ("C17-counts-items", "r is Some ==> advanced(old(self).progress, final(self).progress, 1)"),
-                    ("C17-exhaustion-finishes", "r is None ==> exhausted(old(self).progress, final(self).progress)")]),
+                    ("C17-exhaustion-finishes", "r is None ==> exhausted(old(self).progress, final(self).progress)", ["C17", "C04"])]),
         fn("io::Read for ProgressBarIter", "read", ret="r", sig_rewrites=IOR,
            ensures=[("C17-transparent", "final(self).it.log@ == old(self).it.log@.push(Ev::Read(final(buf)@, r))"),
                     ("C17-counts-bytes", "match r { Ok(n) => advanced(old(self).progress, final(self).progress, n as nat), Err(_) => final(self).progress == old(self).progress }")]),
